@@ -52,6 +52,8 @@ def run(ctx, rep, tier):
     rep.rule("JX", "parallel movable-cell index advances exactly once per movable cell", 2)
     rep.rule("SK", "row lookups by binary search use the key the rows are sorted by", 2)
     rep.rule("DS", "free-space / geometry queries keep no stale derived state (with positive control)", 2)
+    rep.rule("TC", "Tetris marks every row strip a multi-row cell covers (recursion / strip loop reaches the topmost strip)", 1)
+    rep.rule("OF", "orientation frame of the legalizer's cell sizes: producer (fromIspdCircuit) and consumers (width/height exchanges) agree", 2)
     c10.check_p1(ctx, rep)
     # W1
     q = CQ + "LegalizerBase::cellIsPlaced_"
@@ -65,6 +67,8 @@ def run(ctx, rep, tier):
     check_pv(ctx, rep)
     check_tg(ctx, rep)
     check_tb(ctx, rep)
+    check_orientation_frame(ctx, rep)
+    check_strip_coverage(ctx, rep)
     from . import c15
     c15.check_g12(ctx, c02_relabel(rep, "FS"))
     c15.check_g13(ctx, c02_relabel(rep, "FS"))
@@ -105,6 +109,151 @@ def c02_relabel(rep, rid):
     return _Relabel(rep, rid)
 
 
+def check_strip_coverage(ctx, rep):
+    """TC. instanciateCell(x, y, w, h) must advance rowFreePos_ on every row strip y, y+H, ..., y+h-H of the cell (H = row height).
+    Recursive form: the function calls itself with (y + H, h - H) unless h <= H. Loop form `for (s = y; C(s); s += H)`: C must hold
+    for the topmost strip s = y + h - H (decided on the polynomial normal form, H > 0)."""
+    from ..order import Facts, Prover
+    from .common import specialise
+    prog = ctx.prog
+    f = prog.func1(CQ + "TetrisLegalizer::instanciateCell")
+    if len(f.params) < 4:
+        rep.unknown("TC", f.decl, f, "instanciateCell", "signature changed")
+        return
+    yv, hv = [("var", p.get("id"), p.get("name")) for p in (f.params[1], f.params[3])]
+    H = ("call", CQ + "LegalizerBase::rowHeight", ("this",))
+    g = cfg_of(f)
+    rec = [x for x in walk(f.body) if x.get("kind") == "CXXMemberCallExpr" and callee_info(x)["qname"] == f.qname]
+    done = False
+    for x in rec:
+        a = [expand_locals(ctx, f, canon(t)) for t in callee_info(x)["args"]]
+        ok_args = len(a) >= 4 and a[1] == ("bin", "+", yv, H) and a[3] == ("bin", "-", hv, H)
+        # the recursion is skipped only when h <= H
+        gs = [(expand_locals(ctx, f, gc), val) for gc, val, _a, asr in (ctx.guards(f, x) or []) if not asr]
+        extra = []
+        for gc, val in gs:
+            if gc[0] == "bin" and gc[2] == hv and gc[3] == H and ((gc[1] == "<=" and val is False) or (gc[1] == ">" and val is True)):
+                continue
+            if gc[0] == "bin" and gc[3][0] == "lit" and str(gc[3][1]) == "0" and gc[2] in (hv, ("var", f.params[2].get("id"), f.params[2].get("name"))):
+                continue          # h <= 0 / w <= 0: empty cell
+            if gc[0] == "bin" and gc[1] in ("||",):
+                continue
+            extra.append(pretty(gc))
+        done = True
+        if ok_args and not extra:
+            rep.holds("TC", x, f, "instanciateCell recurses on (y + H, h - H) whenever h > H: every strip is marked")
+        else:
+            rep.violation("TC", x, f, "instanciateCell's recursion to the next strip", "arguments %s, extra conditions %s: a covered row can be left unmarked, "
+                          "so a later multi-row cell may be placed on it" % ([pretty(t) for t in a[1:4:2]], extra), key="TetrisLegalizer::instanciateCell|strip recursion")
+    loops = [x for x in walk(f.body) if x.get("kind") == "ForStmt"]
+    for lp in loops:
+        info = for_loop_info(lp)
+        if not info or info["lo"] != yv:
+            continue
+        inc = canon(info["inc"])
+        if not (inc[0] == "bin" and inc[1] == "+=" and expand_locals(ctx, f, inc[3]) == H):
+            continue
+        done = True
+        cond = expand_locals(ctx, f, info["cond"])
+        top = ("bin", "-", ("bin", "+", yv, hv), H)
+        c2 = specialise(cond, {info["var"][1]: top})
+        F = Facts()
+        F.hyp_lb[H] = 1
+        P = Prover(F)
+        ok = None
+        if c2[0] == "bin" and c2[1] in ("<", "<=", ">", ">="):
+            l, r = (c2[2], c2[3]) if c2[1] in ("<", "<=") else (c2[3], c2[2])
+            pl, pr = P.poly(l), P.poly(r)
+            if pl is not None and pr is not None:
+                d = P._padd(pr, pl, -1)
+                nonneg = all(v >= 0 for v in d.values())
+                pos = nonneg and any(v > 0 for v in d.values())
+                ok = pos if c2[1] in ("<", ">") else nonneg
+        if ok is True:
+            rep.holds("TC", lp, f, "strip loop `%s` still runs for the topmost strip y + h - H" % pretty(cond)[:60])
+        elif ok is False:
+            rep.violation("TC", lp, f, "strip loop `%s` stops before the topmost strip of the cell" % pretty(cond)[:60],
+                          "for s = y + h - H the condition reads %s, which is false: the top row of a multi-row cell is never marked as "
+                          "occupied and another multi-row cell can be placed on it" % pretty(c2)[:80], key="TetrisLegalizer::instanciateCell|strip loop one short")
+        else:
+            rep.unknown("TC", lp, f, "strip loop `%s`" % pretty(cond)[:60], "condition not a comparison of polynomials in (s, y, h, H)")
+    if not done:
+        rep.unknown("TC", f.decl, f, "instanciateCell", "neither the recursion on (y + H, h - H) nor a strip loop from y in steps of H was found")
+
+
+def check_orientation_frame(ctx, rep):
+    """OF. Legalizer::fromIspdCircuit fills the legalizer's cellWidth_/cellHeight_ either with *placed* sizes (placedWidth /
+    placedHeight: the input orientation is already applied) or with *raw* library sizes. A later exchange of width and height
+    must be consistent with that frame: with placed sizes only a cell that is turned *relative to its input orientation* is
+    exchanged (the test mentions cellTargetOrientation_), with raw sizes the test is isTurn(new orientation) alone. The pinned
+    tree filled placed sizes and exchanged on isTurn(new) alone: a movable macro that arrives turned and keeps its orientation
+    (no row polarity) was exchanged twice and legalized with the wrong footprint."""
+    prog = ctx.prog
+    f = prog.func1(CQ + "Legalizer::fromIspdCircuit")
+    frame = None
+    ctor = [x for x in walk(f.body) if x.get("kind") in ("CXXConstructExpr", "CXXTemporaryObjectExpr") and qt(x).replace("const ", "").endswith("Legalizer")
+            and len(children(x)) >= 3]
+    srcs = set()
+    if ctor:
+        for a in children(ctor[0])[1:3]:
+            ac = canon(a)
+            if ac[0] != "var":
+                continue
+            for y in walk(f.body):
+                if y.get("kind") == "CXXMemberCallExpr" and callee_info(y)["name"] in ("push_back", "emplace_back") and canon(callee_info(y)["obj"])[:2] == ac[:2]:
+                    v = canon(callee_info(y)["args"][0])
+                    if v[0] == "call" and str(v[1]).endswith(("Circuit::placedWidth", "Circuit::placedHeight")):
+                        srcs.add("placed")
+                    elif any(t[0] == "field" and str(t[1]).endswith(("Circuit::cellWidth_", "Circuit::cellHeight_")) for t in subterms(v)) or \
+                            (v[0] == "index" and v[1][0] == "call" and str(v[1][1]).endswith(("Circuit::cellWidth", "Circuit::cellHeight"))):
+                        srcs.add("raw")
+                    else:
+                        srcs.add("other")
+    if len(srcs) == 1 and "other" not in srcs:
+        frame = srcs.pop()
+    if frame is None:
+        rep.unknown("OF", f.decl, f, "frame of the sizes handed to the Legalizer", "width/height vectors are not filled from placedWidth/placedHeight or the raw sizes alone (%s)" % sorted(srcs))
+        return
+    rep.holds("OF", ctor[0], f, "Legalizer::fromIspdCircuit hands over %s cell sizes" % frame)
+    wq, hq, tq = CQ + "LegalizerBase::cellWidth_", CQ + "LegalizerBase::cellHeight_", CQ + "LegalizerBase::cellTargetOrientation_"
+    n = 0
+    for g_ in prog.all_funcs(with_lambdas=True):
+        if g_.body is None or not (g_.outer.cls or "").startswith(CQ) or not any(k in (g_.outer.cls or "") for k in ("Legalizer",)):
+            continue
+        for x in walk(g_.body):
+            if x.get("kind") != "CallExpr" or callee_info(x)["name"] != "swap" or len(callee_info(x)["args"]) != 2:
+                continue
+            ops = [expand_locals(ctx, g_, canon(a)) for a in callee_info(x)["args"]]
+            inits = []
+            for a in callee_info(x)["args"]:
+                ac = canon(a)
+                d = g_.unit.by_id.get(ac[1]) if ac[0] == "var" else None
+                ic = canon(children(d)[-1]) if d is not None and children(d) else ac
+                inits.append(ic)
+            if not ({i[1][1] for i in inits if i[0] == "index" and i[1][0] == "field"} == {wq, hq}):
+                continue
+            n += 1
+            gs = [expand_locals(ctx, g_, gc) for gc, val, _a, asr in (ctx.guards(g_, x) or []) if not asr]
+            relative = any(t[0] == "field" and t[1] == tq for gc in gs for t in subterms(gc))
+            turn = any(t[0] == "call" and str(t[1]).endswith("isTurn") for gc in gs for t in subterms(gc))
+            what = "%s exchanges the cell's width and height under %s" % (g_.outer.short, " and ".join(pretty(gc)[:70] for gc in gs) or "no condition")
+            if not turn:
+                rep.unknown("OF", x, g_.outer, what, "the exchange is not conditioned on isTurn(...)")
+            elif frame == "placed" and not relative:
+                rep.violation("OF", x, g_.outer, what,
+                              "the sizes are placed sizes (the input orientation is already applied): the exchange must depend on whether the cell "
+                              "is turned *relative to its input orientation* (cellTargetOrientation_); a cell that arrives turned and keeps its "
+                              "orientation is exchanged a second time and legalized with the wrong footprint",
+                              key="%s|absolute orientation test on placed sizes" % g_.outer.short)
+            elif frame == "raw" and relative:
+                rep.violation("OF", x, g_.outer, what, "the sizes are raw library sizes: the exchange must depend on isTurn(new orientation) alone",
+                              key="%s|relative orientation test on raw sizes" % g_.outer.short)
+            else:
+                rep.holds("OF", x, g_.outer, what, "consistent with %s sizes" % frame)
+    if n == 0:
+        rep.holds("OF", f.decl, f, "no legalizer exchanges width and height", "nothing to pair with the producer's frame")
+
+
 def check_tb(ctx, rep):
     """Segment scans of the Tetris legalizer (instanciateCell, getPossibleIntervals) walk the segments of one y in increasing x.
     An early `break` is sound only when this and all later segments cannot matter: the segment belongs to another y
@@ -120,6 +269,11 @@ def check_tb(ctx, rep):
                 self.ast, self.val = ast, False
         folded = []
         for lp in [x for x in walk(f.body) if x.get("kind") == "ForStmt"]:
+            li0 = for_loop_info(lp)
+            # only loops that scan the row segments: the induction variable subscripts rows_
+            if not li0 or not any(t[0] == "index" and t[1][0] == "field" and str(t[1][1]).endswith("rows_") and t[2][:2] == li0["var"][:2]
+                                  for y_ in walk(lp) if y_.get("kind") in ("CXXOperatorCallExpr", "MemberExpr") for t in subterms(canon(y_))):
+                continue
             ch_ = [c_ for c_ in inner(lp) if isinstance(c_, dict)]
             cond = ch_[2] if len(ch_) >= 5 and ch_[2].get("kind") else None
             stack = [strip(cond)] if cond is not None else []
